@@ -16,8 +16,8 @@ from vt.oracles import textcmp
 
 ID = 'C15'
 TIERS = {
-    'quick': dict(shards=15, cases=700, watchdog_s=900),
-    'thorough': dict(shards=15, cases=30000, watchdog_s=6000),
+    'quick': dict(shards=15, cases=3000, watchdog_s=900),
+    'thorough': dict(shards=15, cases=100000, watchdog_s=6000),
 }
 RULE = ('case = C04 text pair (0-3 near-miss edits) x option subset x entry point {string-vs-file, file-vs-file, '
         'list-of-files} or a pair of byte strings (first difference at 0 / middle / at the shorter length / none) through '
